@@ -263,15 +263,23 @@ class Parser:
             buf.next()
         return self.remove_pure_action_lines(out)
 
+    #   text of a token as far as it may act as markup ('{', '[', '*', ...):
+    #   the text of verbatim material never does
+    #
+    @staticmethod
+    def markup_txt(tok):
+        if not tok or type(tok) is defs.VerbatimToken:
+            return None
+        return tok.txt
+
     #   read block (till } or ]) or single token from current buffer buf
     #   Return: new buffer for reading these tokens
     #   - buffer will contain at least one token for position tracking
     #   - this also ensures that an empty option [] will be "something"
     #
     def arg_buffer(self, buf, start, end='}'):
-        def txt(tok):
-            # text of verbatim material never acts as delimiter
-            return None if type(tok) is defs.VerbatimToken else tok.txt
+        # text of verbatim material never acts as delimiter
+        txt = self.markup_txt
         tok = buf.skip_space()
         if not tok:
             return scanner.Buffer([defs.VoidToken(start)])
@@ -344,11 +352,11 @@ class Parser:
             if tok:
                 pos = tok.pos
             if code == '*':
-                if tok and tok.txt == '*':
+                if self.markup_txt(tok) == '*':
                     arg_extr = arg = [tok]
                     buf.next()
             elif code == 'O':
-                if tok and tok.txt == '[':
+                if self.markup_txt(tok) == '[':
                     delim = True
                     arg_extr = arg = self.arg_buffer(buf, pos, end=']').all()
                 else:
@@ -361,11 +369,11 @@ class Parser:
                             t.pos = last_pos
                             t.pos_fix = True
             elif code == 'A':
-                if tok and tok.txt == '}':
+                if self.markup_txt(tok) == '}':
                     # issue #135
                     arg_extr = arg = [defs.VoidToken(pos)]
                 else:
-                    if tok and tok.txt == '{':
+                    if self.markup_txt(tok) == '{':
                         delim = True
                     arg_extr = arg = self.arg_buffer(buf, pos).all()
             else:
@@ -514,10 +522,10 @@ class Parser:
         if skip_space:
             # we do not want to remove a line break for \\ without [...]
             tok = buf.look_ahead()
-            if tok and tok.txt == '[':
+            if self.markup_txt(tok) == '[':
                 buf.skip_space()
         tok = buf.cur()
-        if tok and tok.txt == '[':
+        if self.markup_txt(tok) == '[':
             self.arg_buffer(buf, tok.pos, end=']')
 
     #   generate string from token sequence, without macro expansion
